@@ -23,10 +23,10 @@ FUNCTIONS = ["wannierberri.grid.grid.Grid.__init__/get_K_list/points_FFT/dense",
              "wannierberri.result.tabresult.TABresult.__add__/find_grid/to_grid/self_to_grid/savedata", "wannierberri.result.kbandresult.K__Result.__add__/data/to_grid",
              "wannierberri.calculators.tabulate.TabulatorAll.__init__/__call__"]
 BOUNDS = dict(quick=dict(grids="N = (2,2,1) (4,1,1) (3,2,1) (1,1,4) (2,1,3) (2,2,2) [matrix level]; (2,2,1) (4,1,1) (3,1,2) [run() level]", factorisations="every N_i = NKdiv_i x NKFFT_i",
-                         num_wann="2 (matrix level), 1..2 (run level)", R_vectors="13..19, reaching beyond every FFT box (|R_i| up to N_i)", fftlib="fftw(stub) and numpy(stub), alternating with the factorisation",
+                         num_wann="2 (matrix level), 1..2 (run level)", R_vectors="13..19, reaching beyond every FFT box (|R_i| up to N_i)", fftlib="'slow' for every factorisation, fftw(stub) / numpy(stub) alternating with the factorisation",
                          data="symbolic Hermitian Ham(R), |.|<=1; concrete triclinic lattice and Wannier centres", grid_resolution="determineNK / autoNK on 14 enumerated requests (concrete)"),
               thorough=dict(grids="all N with N_i<=4 and at most 16 k-points [matrix level]; 8 grids up to (4,2,2) [run() level]", factorisations="every N_i = NKdiv_i x NKFFT_i", num_wann="2",
-                            R_vectors="13..19", fftlib="both for every factorisation", data="as quick", grid_resolution="as quick"))
+                            R_vectors="13..19", fftlib="fftw(stub), numpy(stub) and slow for every factorisation (matrix level); slow + alternating fftw/numpy (run level)", data="as quick", grid_resolution="as quick"))
 EXPLANATION = ("For one regular grid N the real Grid.get_K_list / KpointBZ / Data_K_R / Rvectors / FFT_R_to_k chain (and, at the loop level, the real run() with the real TabulatorAll, ResultDict, TABresult, "
                "KBandResult and EnergyResult plumbing) is executed for every factorisation N = NKdiv x NKFFT on a symbolic Hermitian R-space Hamiltonian. z3 decides that the k-resolved Wannier-gauge H(k), dH(k) "
                "collected over all K-points, the table returned by run() after self_to_grid and the k-average returned by a summing calculator equal one factorisation-independent explicit sum at k = n/N "
@@ -158,7 +158,7 @@ def case_matrix(rec, N, nb, libs, both=False):
         ref = [reference(iR, N, X, nb, 0), reference(iR, N, X, nb, 1)]
         index = {n: i for i, n in enumerate(grid_points(N))}
         for ifac, (div, fft) in enumerate(facts):
-            for lib in (libs if both else [libs[ifac % len(libs)]]):
+            for lib in (libs if both else (libs[ifac % 2], "slow")):      # quick: 'slow' for every factorisation, fftw / numpy alternating
                 tag = f"NKdiv={div} NKFFT={fft} {lib}"
                 grid = _quiet(Grid, system=system, NKdiv=np.array(div), NKFFT=np.array(fft), use_symmetry=False)
                 rec.concrete(f"{tag}: Grid keeps the requested factorisation", tuple(grid.div) == div and tuple(grid.FFT) == fft and tuple(grid.dense) == tuple(N), key="Grid changes the requested NKdiv/NKFFT")
@@ -254,16 +254,16 @@ def case_run(rec, N, nb, libs):
         mean = refH.sum(axis=0) / ntot
         kgrid = np.array(grid_points(N)) / np.array(N, dtype=float)
         for ifac, (div, fft) in enumerate(facts):
-            lib = libs[ifac % len(libs)]
-            tag = f"run() NKdiv={div} NKFFT={fft} {lib}"
-            res = _run(system, div, fft, lib, PrioResult)
-            tab, avg = res.results["tab"], res.results["mean"]
-            okgrid = isinstance(tab, TABresult) and tab.grid is not None and tuple(tab.grid) == tuple(N) and np.shape(tab.kpoints) == kgrid.shape and np.abs(tab.kpoints - kgrid).max() < 1e-12
-            rec.concrete(f"{tag}: tabulated result lies on the C-ordered grid n/N", bool(okgrid), f"grid={getattr(tab, 'grid', None)}", key="run(): TABresult grid differs from N")
-            if okgrid:
-                rec.close(f"{tag}: tabulated H_W on the grid == explicit sum at k=n/N", tab.results["Energy"].data, refH, TOL, key="run(): tabulated quantity depends on the factorisation")
-                rec.close(f"{tag}: tabulated dH_W on the grid == explicit sum at k=n/N", tab.results["dH"].data, refdH, TOL, key="run(): tabulated quantity depends on the factorisation")
-            rec.close(f"{tag}: integrated quantity == average of the explicit sum over the grid", avg.data, mean, TOL, key="run(): integrated quantity depends on the factorisation")
+            for lib in (libs[ifac % 2], "slow"):
+                tag = f"run() NKdiv={div} NKFFT={fft} {lib}"
+                res = _run(system, div, fft, lib, PrioResult)
+                tab, avg = res.results["tab"], res.results["mean"]
+                okgrid = isinstance(tab, TABresult) and tab.grid is not None and tuple(tab.grid) == tuple(N) and np.shape(tab.kpoints) == kgrid.shape and np.abs(tab.kpoints - kgrid).max() < 1e-12
+                rec.concrete(f"{tag}: tabulated result lies on the C-ordered grid n/N", bool(okgrid), f"grid={getattr(tab, 'grid', None)}", key="run(): TABresult grid differs from N")
+                if okgrid:
+                    rec.close(f"{tag}: tabulated H_W on the grid == explicit sum at k=n/N", tab.results["Energy"].data, refH, TOL, key="run(): tabulated quantity depends on the factorisation")
+                    rec.close(f"{tag}: tabulated dH_W on the grid == explicit sum at k=n/N", tab.results["dH"].data, refdH, TOL, key="run(): tabulated quantity depends on the factorisation")
+                rec.close(f"{tag}: integrated quantity == average of the explicit sum over the grid", avg.data, mean, TOL, key="run(): integrated quantity depends on the factorisation")
     rec.explore(body)
 
 
@@ -316,7 +316,7 @@ def cases(tier, seed):
         mat = [N for N in itertools.product((1, 2, 3, 4), repeat=3) if np.prod(N) <= 16]
         runs = [((2, 2, 1), 2), ((4, 1, 1), 2), ((3, 1, 2), 2), ((1, 4, 2), 2), ((2, 2, 2), 2), ((4, 2, 2), 1), ((3, 3, 1), 2), ((1, 2, 4), 2)]
     for N in mat:
-        libs = ("fftw", "numpy")
+        libs = ("fftw", "numpy", "slow")
         out.append(Case(f"matrix N={N}", case_matrix, dict(N=N, nb=2, libs=libs, both=not q), timeout=1700))
     for N, nb in runs:
         out.append(Case(f"run N={N} nb={nb}", case_run, dict(N=N, nb=nb, libs=("fftw", "numpy")), timeout=1700))
@@ -360,7 +360,7 @@ def replay(rec):
     bad = []
     try:
         for div, fft in factorisations(N):
-            for lib in ("fftw", "numpy"):
+            for lib in ("fftw", "numpy", "slow"):
                 tag = f"NKdiv={div} NKFFT={fft} {lib}"
                 if w["test"] == "matrix":
                     grid = _quiet(Grid, system=system, NKdiv=np.array(div), NKFFT=np.array(fft), use_symmetry=False)
